@@ -209,6 +209,44 @@ func init() {
 		e.oblige(st, "nil", "", pos, e.tb.Neq(args[0].ifTag(), e.tb.Int(0)), "perunio.Decode on nil reader")
 		e.tokDecodeFrom(st, args[0], vals, 0, pos, k)
 	}
+	// wallet.DecodeSig(r): a wallet backend reads one signature. Interface contract (third-party backends): it consumes exactly the
+	// bytes one signature was written with (one byte-slice token of whatever length the backend's signatures have) and returns them.
+	tokenSpecs["perun.network/go-perun/wallet.DecodeSig"] = func(e *Engine, st *State, fn *ssa.Function, args []Val, pos token.Pos, k Kont) {
+		tb := e.tb
+		r := args[0]
+		e.Assumed["wallet backends (token model): DecodeSig consumes exactly the bytes of one signature as it was written and returns them (interface contract of third-party backends)"] = true
+		e.oblige(st, "nil", "", pos, tb.Neq(r.ifTag(), tb.Int(0)), "wallet.DecodeSig on nil reader")
+		fail := tb.Fresh("tokr_fail", SBool)
+		e.forkOn(st, fail, func(st *State) {
+			cur := e.ghostArr(st, "rfail", SArrB)
+			e.setGhost(st, "rfail", tb.Store(cur, readerKey(tb, r), tb.True()))
+			k(st, Val{Elems: []Val{{T: []*Term{tb.Int(0), tb.Int(0), tb.Int(0), tb.Int(0)}}, e.tokErr(st, "sig")}})
+		}, func(st *State) {
+			k0 := readerKey(tb, r)
+			n := tb.Select(e.ghostArr(st, "rcount", SArrI), k0)
+			ln := e.rtok(r, "len", n)
+			val, okT := e.tokRead(st, r, e.tokKind("bytes"), nil)
+			g := tb.Fresh("siglen", SInt)
+			e.assume(st, tb.And(tb.Le(tb.Int(0), g), tb.Le(g, tb.BigInt(maxExisting))))
+			l := tb.Ite(okT, ln, g)
+			e.assume(st, tb.And(tb.Le(tb.Int(0), l), tb.Le(l, tb.BigInt(maxExisting))))
+			sl := e.allocSlice(st, types.Typ[types.Uint8], l, l)
+			h := e.H(st, "E:uint8", SArr2I)
+			nr := tb.Fresh("sig_row", SArrI)
+			j := tb.BoundVar("j", SInt)
+			in := tb.And(tb.Le(tb.Int(0), j), tb.Lt(j, l))
+			e.assume(st, tb.Forall([]*Term{j}, tb.And(
+				tb.Implies(tb.And(in, okT), tb.Eq(tb.Select(nr, j), tb.Select(tb.App("tokbytes", SArrI, val), j))),
+				tb.Implies(in, tb.And(tb.Le(tb.Int(0), tb.Select(nr, j)), tb.Le(tb.Select(nr, j), tb.Int(255))))), []*Term{tb.Select(nr, j)}))
+			e.setH(st, "E:uint8", tb.Store(h, sl.slArr(), nr))
+			// a backend may refuse what it read
+			rej := tb.Fresh("sig_rejected", SBool)
+			e.forkOn(st, rej, func(st *State) {
+				e.markRejected(st, r)
+				k(st, Val{Elems: []Val{{T: []*Term{tb.Int(0), tb.Int(0), tb.Int(0), tb.Int(0)}}, e.tokErr(st, "sig")}})
+			}, func(st *State) { k(st, Val{Elems: []Val{sl, nilErr(tb)}}) })
+		})
+	}
 	// verifLink(w, r): hypothesis of a round-trip lemma - from now on the reader replays what was written to w since the
 	// lemma function was entered: token i after the reader's current position is token i after the writer's entry position.
 	tokenSpecs["verifLink"] = func(e *Engine, st *State, fn *ssa.Function, args []Val, pos token.Pos, k Kont) {
